@@ -433,3 +433,12 @@ Proof.
   - apply Qspec_pd; assumption.
 Qed.
 
+
+(* ------------------------------------------------------------------ addToDest *)
+Lemma add_to_dest_cs_spec n Sm lam c inv outv i :
+  c <> [] -> (i < n)%nat ->
+  vget (add_to_dest_cs n Sm lam c inv outv) i == vget outv i + vget (add_eval_power n Sm lam c inv) i.
+Proof.
+  intros Hc Hi. unfold add_to_dest_cs. rewrite vget_vkr by exact Hi.
+  apply Qplus_comp; [reflexivity|]. apply (free_eq_assembled n Sm lam c inv i Hc Hi).
+Qed.
